@@ -26,6 +26,7 @@ def _items(depth, in_def):
             st.builds(lambda i: ["par", i], st.integers(0, 3)),
             st.builds(lambda i: ["sfy", i], st.integers(0, 4)),
             st.builds(lambda a, b: ["paste", a, b], _paste_side(), _paste_side()),
+            st.builds(lambda a, b, c: ["paste3", a, b, c], _paste_side(), _paste_side(), _paste_side()),
             st.just(["va"]),
         ]
     leafs = st.one_of(leaf)
@@ -177,6 +178,12 @@ class R:
                 return self.item(it[1], d)
             self.tags.add("pp.paste")
             return "%s ## %s" % (self.item(it[1], d), self.item(it[2], d))
+        if k == "paste3":
+            if "pp.paste" in self.off:
+                return self.item(it[1], d)
+            self.tags.add("pp.paste")
+            self.tags.add("pp.paste.chain")
+            return "%s ## %s ## %s" % (self.item(it[1], d), self.item(it[2], d), self.item(it[3], d))
         if k == "vaopt":
             if d and d["fn"] and d["va"] == 1 and "pp.va_opt" not in self.off:
                 self.tags.add("pp.va_opt")
